@@ -6,14 +6,14 @@ import "math/big"
 // inside the arguments of atoms (Canon(·), BIT(·,k), ISZ(·), FE(·) …),
 // re-normalising on the way up.
 type Subst struct {
-	Atom *PAtom
-	Val  bool
-	Var  *FVar // optional: a free field symbol replaced by the constant VarVal
+	Atom   *PAtom
+	Val    bool
+	Var    *FVar // optional: a free field symbol replaced by the constant VarVal
 	VarVal *Poly
-	tm   map[*Term]*Term
-	pm   map[*Poly]*Poly
-	am   map[*PAtom]*Term
-	im   map[*IAtom]*Term
+	tm     map[*Term]*Term
+	pm     map[*Poly]*Poly
+	am     map[*PAtom]*Term
+	im     map[*IAtom]*Term
 }
 
 func NewSubst(atom *PAtom, val bool) *Subst {
@@ -131,7 +131,6 @@ func (s *Subst) Poly(p *Poly) *Poly {
 }
 
 var _ = big.NewInt
-
 
 // NewVarSubst substitutes the constant c for the free field symbol v.
 func NewVarSubst(v *FVar, c *Poly) *Subst {
